@@ -280,6 +280,7 @@ class MapInstruction(MichelsonInstruction, prim='MAP', args_len=1):
         popped = [src]
         for elt in src:
             if isinstance(src, MapType):
+                key = elt[0]  # keep the key itself: indexing the (key, value) pair flattens composite keys
                 elt = PairType.from_comb(list(elt))  # type: ignore
             stack.push(elt)  # type: ignore
             stack_items_added += 1
@@ -288,7 +289,7 @@ class MapInstruction(MichelsonInstruction, prim='MAP', args_len=1):
             executions.append(execution)
             new_elt = stack.pop1()
             if isinstance(src, MapType):
-                items.append((elt[0], new_elt))
+                items.append((key, new_elt))
             else:
                 items.append(new_elt)  # type: ignore
             popped = [new_elt]  # type: ignore
